@@ -452,7 +452,13 @@ func cmdCheck(prop, tier string) int {
 	for i := 0; i < len(slow) && i < 5; i++ {
 		slowest = append(slowest, map[string]any{"obligation": slow[i].Name, "seconds": round3(slow[i].Sec), "solver": slow[i].By})
 	}
-	extraCov := map[string]any{"obligations": counted, "discharged": discharged, "solver_time_s": round3(solverTime), "slowest_obligations": slowest, "bounded_checks": boundedReports, "known_findings": knownLines}
+	var retried []string
+	for _, o := range obls {
+		if o.Retried {
+			retried = append(retried, o.Name+" -> "+o.Res.Status)
+		}
+	}
+	extraCov := map[string]any{"obligations": counted, "discharged": discharged, "solver_time_s": round3(solverTime), "slowest_obligations": slowest, "retried_after_timeout": retried, "bounded_checks": boundedReports, "known_findings": knownLines}
 	if thorough && len(viols) == 0 && os.Getenv("GOVC_REPO") == "" {
 		// must-fail self-test of this check: up to three mutants of the corpus that name this property are applied to a
 		// scratch copy of the tree and the quick check must report them (guards against a check that has lost its teeth)
